@@ -66,7 +66,7 @@ func newPartition(id uuid.UUID, meta *pb.Partition, dataset *Dataset, raftWalDB 
 		dataset:        dataset,
 		index:          newIndexFromDatasetProto(dataset.Meta()),
 		raft:           nil,
-		wal:            verifWrapWAL(id, wal.NewBadgerWAL(raftWalDB, id)),
+		wal:            wal.NewBadgerWAL(raftWalDB, id),
 		raftTransport:  raftTransport,
 		datasetManager: datasetManager,
 		raftMu:         &sync.RWMutex{},
@@ -76,6 +76,7 @@ func newPartition(id uuid.UUID, meta *pb.Partition, dataset *Dataset, raftWalDB 
 			"partition_id": id,
 		}),
 	}
+	p.wal = verifWrapWAL(id, p.wal)
 
 	return p
 }
